@@ -513,7 +513,7 @@ pub open spec fn bounded<R: Read>(r: R) -> bool { r.wf() && r.consumed() + r.unr
 
 // ---- forward_read_byte_buf of both readers: the visitor of a LazyValue / byte_buf-style value (message bodies are decoded through it) must be driven the same way
 // by the slice reader (single-frame delivery) and by the io reader (multi-frame delivery)
-pub enum VisCall { Bytes(Seq<u8>), ByteBuf(Seq<u8>) }
+pub enum VisCall { Bytes(Seq<u8>), ByteBuf(Seq<u8>), Str(Seq<char>) }
 pub struct VisValue { pub via: Ghost<VisCall> }
 /// a serde visitor, reduced to which entry point it was driven through and with which octets
 pub struct VisS { pub p: u8 }
@@ -528,6 +528,17 @@ impl VisS {
     pub fn visit_borrowed_bytes(self, v: &[u8]) -> (r: Result<VisValue, Error>) ensures r is Ok ==> r->Ok_0.via@ == VisCall::Bytes(v@), self.total() ==> r is Ok { unimplemented!() }
     #[verifier::external_body]
     pub fn visit_bytes_of(self, v: &[u8]) -> (r: Result<VisValue, Error>) ensures r is Ok ==> r->Ok_0.via@ == VisCall::Bytes(v@), self.total() ==> r is Ok { unimplemented!() }
+}
+impl VisS {
+    #[verifier::external_body]
+    pub fn visit_borrowed_str(self, v: &str) -> (r: Result<VisValue, Error>) ensures r is Ok ==> r->Ok_0.via@ == VisCall::Str(v@) { unimplemented!() }
+    #[verifier::external_body]
+    pub fn visit_str(self, v: &str) -> (r: Result<VisValue, Error>) ensures r is Ok ==> r->Ok_0.via@ == VisCall::Str(v@) { unimplemented!() }
+}
+/// the ONE contract of Read::forward_read_str, checked against both readers
+pub open spec fn str_forwarded<R: Read>(old_r: R, new_r: R, len: usize, r: Result<VisValue, Error>) -> bool {
+    &&& (r is Ok ==> r->Ok_0.via@ is Str && utf8(r->Ok_0.via@->Str_0).len() == len && took(old_r, new_r, utf8(r->Ok_0.via@->Str_0)))      // [C20.reader.forward-exact] the visitor is shown exactly the next `len` octets, as text, and exactly they are consumed -- by either reader
+    &&& (len > old_r.unread().len() ==> r is Err)                                                                                         // [C04.reader.short-input-is-an-error]
 }
 /// the ONE contract of Read::forward_read_bytes_with_hint, checked against both readers
 pub open spec fn bytes_forwarded<R: Read>(old_r: R, new_r: R, len: usize, visitor: VisS, r: Result<VisValue, Error>) -> bool {
@@ -580,6 +591,33 @@ impl<'s> SliceReader<'s> {
 //@@ spec
     requires bounded(*old(self)),
     ensures bytes_forwarded(*old(self), *final(self), len, visitor, r), final(self).wf(),     // [C20.reader.forward-exact] (spelled out in bytes_forwarded above)
+//@@ end
+}
+impl<'s> SliceReader<'s> {
+//@@ fn file=serde_amqp/src/read/sliceread.rs impl=`impl<'s> Read<'s> for SliceReader<'s>` name=forward_read_str id=SliceReader::forward_read_str
+//@@ qmark
+//@@ generics
+//@@ nowhere
+//@@ param visitor : VisS
+//@@ ret Result<VisValue, Error>
+//@@ subst `std::str::from_utf8(` => `str_from_utf8(` rule=R9
+//@@ spec
+    requires bounded(*old(self)),
+    ensures str_forwarded(*old(self), *final(self), len, r), final(self).wf(),     // [C20.reader.forward-exact] (spelled out in str_forwarded above)
+//@@ end
+}
+impl IoReader {
+//@@ fn file=serde_amqp/src/read/ioread.rs impl=`~Read<'de>forIoReader<R>` name=forward_read_str id=IoReader::forward_read_str
+//@@ qmark
+//@@ generics
+//@@ nowhere
+//@@ param visitor : VisS
+//@@ ret Result<VisValue, Error>
+//@@ subst `std::str::from_utf8(&self.buf[..len])` => `str_from_utf8(vstd::slice::slice_subrange(self.buf.as_slice(), 0, len))` rule=R9
+//@@ subst `self.buf.drain(..len)` => `vec_drain_front(&mut self.buf, len)` rule=R9
+//@@ spec
+    requires bounded(*old(self)),
+    ensures str_forwarded(*old(self), *final(self), len, r), final(self).wf(),     // [C20.reader.forward-exact] (spelled out in str_forwarded above)
 //@@ end
 }
 impl IoReader {
